@@ -551,7 +551,8 @@ class Interp:
         return res
 
     def p_is_finite(self, eqn, v):
-        return _ew1(lambda p: P.ONE - P.b_isnan(p), v[0])
+        # finite == neither NaN nor +-inf (two independent idempotent atoms: floats are reals + these two predicates)
+        return _ew1(lambda p: (P.ONE - P.b_isnan(p)) * (P.ONE - P.b_isinf(p)), v[0])
 
     # -- opaque functions
     def p_pure_callback(self, eqn, vals):
